@@ -23,6 +23,7 @@ type Conn struct {
 	outLens   []int
 	BytesIn   int64
 	ReadCalls int64
+	reading   bool
 }
 
 type ClientEnd struct{ c *Conn }
@@ -38,7 +39,9 @@ func (c *Conn) Read(p []byte) (int, error) {
 	if w != nil {
 		w.yield("conn-read")
 		for len(c.in) == 0 && !c.inClosed && !c.outClosed {
+			c.reading = true
 			w.block("conn-read:"+c.name, func() bool { return len(c.in) > 0 || c.inClosed || c.outClosed })
+			c.reading = false
 		}
 	}
 	if len(c.in) == 0 {
@@ -70,6 +73,9 @@ func (c *Conn) RemoteAddr() net.Addr               { return addr(c.name) }
 func (c *Conn) SetDeadline(t time.Time) error      { return nil }
 func (c *Conn) SetReadDeadline(t time.Time) error  { return nil }
 func (c *Conn) SetWriteDeadline(t time.Time) error { return nil }
+
+// BlockedInRead reports whether the server task is parked in Read with nothing to read.
+func (c *Conn) BlockedInRead() bool { return c.reading && len(c.in) == 0 && !c.inClosed }
 
 // Blocked reports whether the server would block in Read now (idle connection).
 func (c *Conn) WantsInput() bool { return len(c.in) == 0 && !c.inClosed && !c.outClosed }
